@@ -161,7 +161,10 @@ type VerifSSSnapshot struct {
 
 func (v *VerifSendStream) Snapshot() VerifSSSnapshot {
 	s := v.S
-	s.mutex.Lock()
+	// after a panic inside a critical section the mutex stays locked for ever: never block on it
+	if !s.mutex.TryLock() {
+		return VerifSSSnapshot{}
+	}
 	defer s.mutex.Unlock()
 	sn := VerifSSSnapshot{
 		WriteOffset: int64(s.writeOffset), NumOutstanding: s.numOutstandingFrames, ReliableSize: int64(s.reliableSize),
